@@ -34,6 +34,7 @@ from .classes import VariantDict  # noqa
 # Array: stated separately for collecting arrays (proved) and for discard=True (known finding: the empty list that parsing hands back
 # is refused by build whenever count > 0)
 PROGRAMS.append(dict(program='canonical_list', cls='Array', tags=('C02',), variant=VariantDict(discard=False)))
+# PROGRAMS.append(dict(program='canonical_list', cls='Sequence', tags=('C02',)))   # in progress
 PROGRAMS.append(dict(program='canonical_accepts', cls='Array', tags=('C02',), variant=VariantDict(discard=True)))
 for _u in (1, 2):
     PROGRAMS.append(dict(program='canonical', cls='NullTerminated', tags=('C02',), variant=VariantDict(term_len=_u)))
